@@ -16,8 +16,8 @@ import (
 	"strconv"
 	"strings"
 
-	bpmn "github.com/olive-io/bpmn/v2"
 	"github.com/olive-io/bpmn/schema"
+	bpmn "github.com/olive-io/bpmn/v2"
 	"github.com/olive-io/bpmn/v2/pkg/data"
 	"github.com/olive-io/bpmn/v2/pkg/id"
 
@@ -27,14 +27,22 @@ import (
 // Plains returns the enumerations of C16 for a tier ("quick": depth 2, "thorough": depth 3).
 func Plains(tier string) []*rep.Plain {
 	d := depthFor(tier)
+	// Weight ~ measured CPU seconds x 4 (thorough) of the Plain when run alone, at least 1. newvalue is
+	// dominated by the JSON encoder's per-type compilation (every generated type is new to it).
+	wt := func(quick, thorough int) int {
+		if d >= 3 {
+			return thorough
+		}
+		return quick
+	}
 	ps := []*rep.Plain{
-		{Name: "newvalue", Weight: 1, Run: func(r *rep.Report) { runNewValue(r, values(d)) }},
-		{Name: "valuefrom", Weight: 3, Run: func(r *rep.Report) { runValueFrom(r, values(d)) }},
-		{Name: "setvariable", Weight: 2, Run: func(r *rep.Report) { runSetVariable(r, values(d)) }},
-		{Name: "isolation", Weight: 4, Run: func(r *rep.Report) { runIsolation(r, values(d)) }},
-		{Name: "process", Weight: 4, Run: func(r *rep.Report) { runProcess(r, values(1)) }},
-		{Name: "apply", Weight: 3, Run: func(r *rep.Report) { runApply(r, values(d)) }},
-		{Name: "dataobject", Weight: 2, Run: func(r *rep.Report) { runDataObject(r, values(d)) }},
+		{Name: "newvalue", Weight: wt(2, 20), Run: func(r *rep.Report) { runNewValue(r, values(d)) }},
+		{Name: "valuefrom", Weight: wt(2, 20), Run: func(r *rep.Report) { runValueFrom(r, values(d)) }},
+		{Name: "setvariable", Weight: wt(2, 20), Run: func(r *rep.Report) { runSetVariable(r, values(d)) }},
+		{Name: "isolation", Weight: wt(2, 22), Run: func(r *rep.Report) { runIsolation(r, values(d)) }},
+		{Name: "process", Weight: wt(2, 2), Run: func(r *rep.Report) { runProcess(r, values(1)) }},
+		{Name: "apply", Weight: wt(2, 22), Run: func(r *rep.Report) { runApply(r, values(d)) }},
+		{Name: "dataobject", Weight: wt(2, 20), Run: func(r *rep.Report) { runDataObject(r, values(d)) }},
 	}
 	// fetchinput is the most expensive entry point: split by value class (depth, then residue)
 	split := func(name string, w int, pred func(i int, g gv) bool) {
@@ -48,13 +56,18 @@ func Plains(tier string) []*rep.Plain {
 			runFetch(r, sel)
 		}})
 	}
-	split("fetchinput-d0", 3, func(i int, g gv) bool { return g.depth == 0 })
-	split("fetchinput-d1", 12, func(i int, g gv) bool { return g.depth == 1 })
-	split("fetchinput-d2", 20, func(i int, g gv) bool { return g.depth == 2 })
-	if d >= 3 {
+	split("fetchinput-d0", 1, func(i int, g gv) bool { return g.depth == 0 })
+	split("fetchinput-d1", wt(3, 4), func(i int, g gv) bool { return g.depth == 1 })
+	if d < 3 {
+		split("fetchinput-d2", 4, func(i int, g gv) bool { return g.depth == 2 })
+	} else {
+		for k := 0; k < 2; k++ {
+			k := k
+			split(fmt.Sprintf("fetchinput-d2-%d", k), 16, func(i int, g gv) bool { return g.depth == 2 && i%2 == k })
+		}
 		for k := 0; k < 4; k++ {
 			k := k
-			split(fmt.Sprintf("fetchinput-d3-%d", k), 40, func(i int, g gv) bool { return g.depth == 3 && i%4 == k })
+			split(fmt.Sprintf("fetchinput-d3-%d", k), 14, func(i int, g gv) bool { return g.depth == 3 && i%4 == k })
 		}
 	}
 	return ps
@@ -121,6 +134,7 @@ func runNewValue(r *rep.Report, vs []gv) {
 		}
 		if clause, shape, detail := w.check(typ, val); clause != "" {
 			e.violation(clause, shape, fmt.Sprintf("schema.NewValue(%s): %s", g.desc, detail), g, "", nil)
+			continue
 		}
 		// a *schema.Value handed to NewValue is copied, not re-encoded
 		if typ != "" {
@@ -423,70 +437,70 @@ func runIsolation(r *rep.Report, vs []gv) {
 			bpmn.WithLocator(l2)(&o2)
 			bpmn.WithVariables(m2)(&o2)
 			if d := ok(l1, "x", w); d != "" {
-				steps = append(steps, "stored: "+d)
+				steps = append(steps, "stored|stored: "+d)
 				return // storage itself is broken for this value: the other entry points report it
 			}
 			if d := ok(l2, "x", wo); d != "" {
-				steps = append(steps, "cross-talk l1->l2: "+d)
+				steps = append(steps, "cross-talk/other-locator|cross-talk l1->l2: "+d)
 			}
 			if _, f := l1.GetVariable("only2"); f {
-				steps = append(steps, "cross-talk: l1 sees a variable of l2")
+				steps = append(steps, "cross-talk/other-locator|cross-talk: l1 sees a variable of l2")
 			}
 			// caller mutates its own containers afterwards
 			m1["x"] = "replaced-by-caller"
 			m1["new"] = 1
 			delete(m2, "x")
 			if d := ok(l1, "x", w); d != "" {
-				steps = append(steps, "aliasing of the variables map: "+d)
+				steps = append(steps, "aliasing/variables-map|aliasing of the variables map: "+d)
 			}
 			if _, f := l1.GetVariable("new"); f {
-				steps = append(steps, "aliasing of the variables map: later key visible")
+				steps = append(steps, "aliasing/variables-map|aliasing of the variables map: later key visible")
 			}
 			if d := ok(l2, "x", wo); d != "" {
-				steps = append(steps, "aliasing of the variables map (delete): "+d)
+				steps = append(steps, "aliasing/variables-map|aliasing of the variables map (delete): "+d)
 			}
 			if mutateCaller(g.v) {
 				if d := ok(l1, "x", w); d != "" {
-					steps = append(steps, "aliasing of the caller's container/pointee: "+d)
+					steps = append(steps, "aliasing/caller-container|aliasing of the caller's container/pointee: "+d)
 				}
 			}
 			// mutate what was read back
 			got, _ := l1.GetVariable("x")
 			if mutateReadBack(got) {
 				if d := ok(l1, "x", w); d != "" {
-					steps = append(steps, "aliasing of the read-back value: "+d)
+					steps = append(steps, "aliasing/read-back-value|aliasing of the read-back value: "+d)
 				}
 			}
 			cv := l1.CloneVariables()
 			if mutateReadBack(cv["x"].Value()) {
 				if d := ok(l1, "x", w); d != "" {
-					steps = append(steps, "aliasing of the cloned item's value: "+d)
+					steps = append(steps, "aliasing/cloned-item-value|aliasing of the cloned item's value: "+d)
 				}
 			}
 			cv["x"] = schema.NewValue("scribble")
 			cv["extra"] = schema.NewValue(1)
 			if d := ok(l1, "x", w); d != "" {
-				steps = append(steps, "aliasing of the CloneVariables map: "+d)
+				steps = append(steps, "aliasing/clone-variables-map|aliasing of the CloneVariables map: "+d)
 			}
 			if _, f := l1.GetVariable("extra"); f {
-				steps = append(steps, "aliasing of the CloneVariables map: key added")
+				steps = append(steps, "aliasing/clone-variables-map|aliasing of the CloneVariables map: key added")
 			}
 			// merge into a third locator, then diverge
 			l3 = data.NewFlowDataLocator()
 			l3.Merge(l1)
 			if d := ok(l3, "x", w); d != "" {
-				steps = append(steps, "merge: "+d)
+				steps = append(steps, "merge/merged-copy|merge: "+d)
 			}
 			l1.SetVariable("x", other)
 			if d := ok(l3, "x", w); d != "" {
-				steps = append(steps, "after merge, set on source visible in target: "+d)
+				steps = append(steps, "merge/set-on-source|after merge, set on source visible in target: "+d)
 			}
 			l3.SetVariable("x", "third")
 			if d := ok(l1, "x", wo); d != "" {
-				steps = append(steps, "after merge, set on target visible in source: "+d)
+				steps = append(steps, "merge/set-on-target|after merge, set on target visible in source: "+d)
 			}
 			if d := ok(l2, "x", wo); d != "" {
-				steps = append(steps, "unrelated locator changed: "+d)
+				steps = append(steps, "cross-talk/unrelated-locator|unrelated locator changed: "+d)
 			}
 		})
 		if p != "" {
@@ -494,16 +508,12 @@ func runIsolation(r *rep.Report, vs []gv) {
 			continue
 		}
 		for _, s := range steps {
-			if strings.HasPrefix(s, "stored: ") {
-				break // reported by setvariable
+			tag, detail, _ := strings.Cut(s, "|")
+			if tag == "stored" {
+				break // storage itself is broken for this value: reported by setvariable
 			}
-			clause := "cross-talk"
-			if strings.Contains(s, "aliasing") {
-				clause = "aliasing"
-			} else if strings.Contains(s, "merge") {
-				clause = "merge"
-			}
-			e.violation(clause, w.cls.shape, fmt.Sprintf("value %s: %s", g.desc, s), g, "", map[string]any{"step": s})
+			clause, shape, _ := strings.Cut(tag, "/")
+			e.violation(clause, shape, fmt.Sprintf("value %s: %s", g.desc, detail), g, "", map[string]any{"step": detail})
 		}
 	}
 }
@@ -548,7 +558,7 @@ func runProcess(r *rep.Report, vs []gv) {
 			p1, err1 := bpmn.NewProcess(pe, defs, bpmn.WithContext(ctx), bpmn.WithIdGenerator(idg), bpmn.WithVariables(m1), bpmn.WithDataObjects(map[string]any{"DO_in": g.v}))
 			p2, err2 := bpmn.NewProcess(pe, defs, bpmn.WithContext(ctx), bpmn.WithIdGenerator(idg), bpmn.WithVariables(m2), bpmn.WithDataObjects(map[string]any{"DO_in": other}))
 			if err1 != nil || err2 != nil {
-				steps = append(steps, fmt.Sprintf("setup: NewProcess errors %v / %v", err1, err2))
+				steps = append(steps, fmt.Sprintf("setup/new-process-error|NewProcess errors %v / %v", err1, err2))
 				return
 			}
 			chk := func(l data.IFlowDataLocator, w want, what string) {
@@ -577,19 +587,19 @@ func runProcess(r *rep.Report, vs []gv) {
 					}
 				}
 			}
-			chk(p1.Locator(), w, "stored")
+			chk(p1.Locator(), w, "stored|stored")
 			if len(steps) > 0 {
 				return
 			}
-			chk(p2.Locator(), wo, "cross-talk p1->p2")
+			chk(p2.Locator(), wo, "cross-talk/other-instance|p2 after creating p1")
 			m1["x"] = "replaced"
 			mutateCaller(g.v)
-			chk(p1.Locator(), w, "aliasing of caller data")
+			chk(p1.Locator(), w, "aliasing/caller-container|p1 after the caller mutated what it passed in")
 			p1.Locator().SetVariable("x", "changed-in-p1")
 			p1.Locator().SetVariable("only1", 1)
-			chk(p2.Locator(), wo, "cross-talk after SetVariable on p1")
+			chk(p2.Locator(), wo, "cross-talk/set-on-other-instance|p2 after SetVariable on p1")
 			if _, f := p2.Locator().GetVariable("only1"); f {
-				steps = append(steps, "cross-talk: p2 sees a variable of p1")
+				steps = append(steps, "cross-talk/set-on-other-instance|p2 sees a variable set on p1")
 			}
 		})
 		if p != "" {
@@ -597,16 +607,12 @@ func runProcess(r *rep.Report, vs []gv) {
 			continue
 		}
 		for _, s := range steps {
-			if strings.HasPrefix(s, "stored") {
+			tag, detail, _ := strings.Cut(s, "|")
+			if tag == "stored" {
 				break // storage itself is broken for this value: reported by setvariable/dataobject
 			}
-			clause := "cross-talk"
-			if strings.HasPrefix(s, "setup") {
-				clause = "setup"
-			} else if strings.Contains(s, "aliasing") {
-				clause = "aliasing"
-			}
-			e.violation(clause, w.cls.shape, fmt.Sprintf("value %s: %s", g.desc, s), g, "", map[string]any{"step": s})
+			clause, shape, _ := strings.Cut(tag, "/")
+			e.violation(clause, shape, fmt.Sprintf("value %s: %s", g.desc, detail), g, "", map[string]any{"step": detail})
 		}
 	}
 }
